@@ -112,7 +112,22 @@ pub struct Focus {
     pub replace_waker_bias: u64,
 }
 
+/// A buffer whose `parts` panics and which counts its drops: the operation reading it never gets
+/// as far as a filled submission.
+struct CountedFaulty(Arc<std::sync::atomic::AtomicUsize>);
+unsafe impl a10::io::Buf for CountedFaulty {
+    unsafe fn parts(&self) -> (*const u8, u32) {
+        panic!("faulty buffer")
+    }
+}
+impl Drop for CountedFaulty {
+    fn drop(&mut self) {
+        self.0.fetch_add(1, std::sync::atomic::Ordering::SeqCst);
+    }
+}
+
 struct World {
+    ghost_fds: Vec<Box<ManuallyDrop<a10::AsyncFd>>>,
     ring: Option<a10::Ring>,
     ring_fd: i32,
     ops: Vec<OpSt>,
@@ -131,6 +146,45 @@ impl World {
         if self.oracle.is_none() {
             self.oracle = Some(what);
         }
+    }
+
+    /// An operation that never starts: its first poll panics while the submission is being filled
+    /// (the buffer's `parts` panics), then the future is dropped. It is no operation of the model:
+    /// it must leave no trace — nothing queued (no submission, no cancellation), its buffer dropped
+    /// with the future. Only done when the queue has room (otherwise the poll parks instead).
+    fn do_ghost(&mut self, id: usize) -> bool {
+        if simk::with(|s| s.sq_pending()) as u64 >= self.cap as u64 {
+            return false;
+        }
+        let sq = self.ring.as_ref().unwrap().sq();
+        let n = fake_fd(900 + id);
+        simk::add_fake_fd(n);
+        let fd = Box::new(ManuallyDrop::new(unsafe { a10::AsyncFd::from_raw_fd(n, sq) }));
+        let fd_ref: &'static a10::AsyncFd = unsafe { &*(&**fd as *const a10::AsyncFd) };
+        self.ghost_fds.push(fd);
+        let drops = Arc::new(std::sync::atomic::AtomicUsize::new(0));
+        let before = simk::with(|s| s.pending_sqes().len());
+        let mut fut = Box::pin(fd_ref.write(CountedFaulty(drops.clone())));
+        let wk = self.wakes.waker(999_000 + id as u64);
+        let polled = std::panic::catch_unwind(std::panic::AssertUnwindSafe(|| poll_once(fut.as_mut(), &wk).is_ready()));
+        let _ = self.silent.lock().unwrap().take();
+        if polled.is_ok() {
+            self.fail("the first poll of a write whose buffer panics in parts() returned normally".into());
+        }
+        let dropped = std::panic::catch_unwind(std::panic::AssertUnwindSafe(move || drop(fut)));
+        if dropped.is_err() {
+            let msg = self.silent.lock().unwrap().take().unwrap_or_default();
+            self.fail(format!("dropping a future whose first poll panicked panicked: {msg}"));
+        }
+        let after = simk::with(|s| s.pending_sqes().len());
+        if after != before {
+            self.fail(format!("an operation that never started (its buffer panicked while the submission was filled) left {} submission(s) in the queue when it was polled and dropped", after as i64 - before as i64));
+        }
+        let d = drops.load(std::sync::atomic::Ordering::SeqCst);
+        if d != 1 {
+            self.fail(format!("the buffer of an operation that never started was dropped {d} times by dropping its future (expected once, at once: nothing is in flight)"));
+        }
+        true
     }
 
     fn op_of_sqe(&self, sqe: &abi::Sqe) -> Option<usize> {
@@ -483,6 +537,7 @@ pub fn one_case(r: &mut Rng, focus: &Focus, silent: &Arc<Mutex<Option<String>>>)
     let ring_fd = simk::with(|s| s.fd);
     let sq = ring.sq();
     let mut w = World {
+        ghost_fds: Vec::new(),
         ring: Some(ring),
         ring_fd,
         ops: Vec::new(),
@@ -534,7 +589,18 @@ pub fn one_case(r: &mut Rng, focus: &Focus, silent: &Arc<Mutex<Option<String>>>)
 
     let mut events: Vec<Event> = Vec::new();
     let mut next_waker = 100u64;
-    for _ in 0..n_events {
+    // Before which events an operation that never starts (panicking buffer) is polled and dropped.
+    let ghost_at: Vec<usize> = if r.chance(1, 3) { (0..r.range(1, 2)).map(|_| r.below(n_events as u64) as usize).collect() } else { Vec::new() };
+    let mut ghosts_done: Vec<usize> = Vec::new();
+    for ev_index in 0..n_events {
+        if w.oracle.is_some() {
+            break;
+        }
+        for (g, at) in ghost_at.iter().enumerate() {
+            if *at == ev_index && w.do_ghost(g) {
+                ghosts_done.push(ev_index);
+            }
+        }
         if w.oracle.is_some() {
             break;
         }
@@ -642,6 +708,9 @@ pub fn one_case(r: &mut Rng, focus: &Focus, silent: &Arc<Mutex<Option<String>>>)
     for o in w.ops.drain(..) {
         drop(ManuallyDrop::into_inner(*o.fd));
     }
+    for fd in w.ghost_fds.drain(..) {
+        drop(ManuallyDrop::into_inner(*fd));
+    }
     simk::retire(w.ring_fd);
     alloc::unwatch_all();
 
@@ -666,7 +735,10 @@ pub fn one_case(r: &mut Rng, focus: &Focus, silent: &Arc<Mutex<Option<String>>>)
         json.push_str(&json_event(e));
     }
     coq.push_str("] |}");
-    json.push_str("]}");
+    let _ = write!(json, "],\"never_started_operation_polled_and_dropped_before_events\":{:?}}}", ghosts_done);
+    if !ghosts_done.is_empty() {
+        tags.push("never-started-op(panicking fill)".into());
+    }
     tags.sort();
     tags.dedup();
     let nontrivial = n_events_run >= 4 && events.iter().any(|e| matches!(e, Event::KPost(..)));
